@@ -15,6 +15,9 @@ def sweeps(ctx):
         ("mid", 2, 300 if q else 6000, ["txs=4..8", "workers=1,2,3,4"]),
         ("large", 3, 60 if q else 2000, ["txs=10..24", "workers=2,4,8", "maxsteps=400000"]),
         ("pct", 4, 150 if q else 3000, ["txs=3..7", "workers=2,3", "strat=pct"]),
+        # dependency chains with data-dependent write locations (write sets that change between
+        # incarnations, withdrawn writes) under straggler schedules (one worker frozen mid-task)
+        ("chain", 5, 1200 if q else 20000, ["txs=3..5", "workers=2,3", "opts=chain", "strat=straggler"]),
     ]
 
 
